@@ -28,7 +28,7 @@ INF = float('inf')
 
 EXTRACT_V = '''From Coq Require Import Extraction ExtrOcamlBasic.
 Require Import Num C20_Model.
-Extraction "C20m.ml" rk2_step rk3_step rkm_step rkf_step euler_step hermite sxe_step sxe2_step verlet_step adjust err_norm rel_scale take_step VL.
+Extraction "C20m.ml" rk2_step rk3_step rkm_step rkf_step euler_step hermite sxe_step sxe2_step verlet_step adjust err_norm err_norm_inf err_norm_sel rel_scale take_step VL.
 '''
 
 def hx(x):
@@ -61,9 +61,10 @@ def run_lines(prog, lines):
 # ------------------------------------------------------------------------------------------------ generators
 def rnd(rng, lo, hi): return rng.uniform(lo, hi)
 
-def gen_ode(rng, kind, fam, style):
+def gen_ode(rng, kind, fam, style, quz=False):
     """random small ODE; returns (n2, nz, nd, y0, M, C)"""
-    if kind in (5, 6, 7): n2, nz = rng.choice([(1, 0), (1, 1), (2, 1), (2, 0), (0, 2)])
+    if quz: n2, nz = rng.choice([(1, 1), (2, 1), (1, 2)])
+    elif kind in (5, 6, 7): n2, nz = rng.choice([(1, 0), (1, 1), (2, 1), (2, 0), (0, 2)])
     else: n2, nz = rng.choice([(0, 1), (0, 2), (0, 3), (1, 1), (1, 0)])
     n = 2 * n2 + nz; m = n2 + nz
     nd = [rng.choice([1.0, rnd(rng, 0.5, 2.0)]) for _ in range(n2)]
@@ -104,6 +105,32 @@ def gen_cases(ctx, nstep, ntake, nadj, nherm):
         tm = rng.choice(['inf', 'inf', 'half', 'near', 'far'])
         tMax = {'inf': INF, 'half': t0 + h * rnd(rng, 0.2, 0.9), 'near': t0 + h * rnd(rng, 0.96, 1.0009), 'far': t0 + h * rnd(rng, 1.5, 3)}[tm]
         cases.append(('TAKE', kind, 'TAKE %d %d %d %d %s %s %s %s %s %s %s' % (kind, n2, nz, fam, hx(t0), hx(h), hx(acc), hx(umin), hx(umax), hx(tMax), ode_tail(nd, y0, M, C))))
+    # the same two case kinds under setUseInfinityNorm(true), on systems that have q, u AND z states
+    for i in range(max(8, nstep // 4)):
+        kind = i % 8; fam = rng.choice([0, 0, 1]); n2, nz, nd, y0, M, C = gen_ode(rng, kind, fam, rng.choice(['mixed', 'big']) if fam == 0 else 'mixed', quz=True)
+        t0 = rnd(rng, -1, 1); h = rng.choice([rnd(rng, 0.01, 0.1), rnd(rng, 0.1, 0.5)]); acc = 10 ** rnd(rng, -6, -2)
+        cases.append(('STEPI', kind, 'STEPI %d %d %d %d %s %s %s %s' % (kind, n2, nz, fam, hx(t0), hx(h), hx(acc), ode_tail(nd, y0, M, C))))
+    for i in range(max(7, ntake // 3)):
+        kind = tk[i % 7]; fam = rng.choice([0, 1]); n2, nz, nd, y0, M, C = gen_ode(rng, kind, fam, 'mixed', quz=True)
+        if rng.random() < 0.5:        # fast z dynamics next to slow q,u: the z error should decide about the step
+            n = 2 * n2 + nz
+            for r in range(n2, n2 + nz):
+                for c in range(n): M[r * n + c] *= (8.0 if c >= 2 * n2 else 1.0)
+            for r in range(n2):
+                for c in range(n): M[r * n + c] *= 0.05
+        t0 = rnd(rng, -1, 1); h = rnd(rng, 0.02, 0.4); acc = 10 ** rnd(rng, -5, -1)
+        tMax = rng.choice([INF, INF, t0 + h * rnd(rng, 1.5, 3)])
+        cases.append(('TAKEI', kind, 'TAKEI %d %d %d %d %s %s %s %s %s %s %s' % (kind, n2, nz, fam, hx(t0), hx(h), hx(acc), hx(-1), hx(-1), hx(tMax), ode_tail(nd, y0, M, C))))
+    # calcErrorNorm called directly, both norms, one block dominating in turn
+    for i in range(max(24, nstep // 4)):
+        n2, nz = rng.choice([(1, 1), (2, 1), (1, 2), (2, 3), (0, 2), (2, 0), (3, 2)])
+        nd = [rng.choice([1.0, rnd(rng, 0.5, 2.0)]) for _ in range(n2)]
+        y0 = [rnd(rng, -2, 2) * rng.choice([1, 1, 30]) for _ in range(2 * n2 + nz)]
+        ye = [rnd(rng, -1, 1) * 10 ** rnd(rng, -6, -3) for _ in range(2 * n2 + nz)]
+        dom = i % 4                     # 0: none, 1: q, 2: u, 3: z block holds the single bad component
+        blocks = {1: range(0, n2), 2: range(n2, 2 * n2), 3: range(2 * n2, 2 * n2 + nz)}
+        if dom and len(blocks[dom]): ye[rng.choice(list(blocks[dom]))] = rng.choice([-1, 1]) * 10 ** rnd(rng, -2, 1)
+        cases.append(('NORM', -1, 'NORM %d %d %d | %s | %s | %s' % (i // 4 % 2, n2, nz, hl(nd), hl(y0), hl(ye))))
     for i in range(nadj):
         acc = 10 ** rnd(rng, -8, -1); h0 = 10 ** rnd(rng, -4, 0)
         lim = rng.choice(['none', 'none', 'min', 'max', 'both'])
@@ -184,6 +211,40 @@ def compare_herm(case, a, b):
     if not vec_close([fx(x) for x in ta[1:]], [fx(x) for x in tb[1:]], 10.0): return 'interpolated state: impl %s model %s' % (ta[1:], tb[1:])
     return None
 
+def compare_norm(case, a, b):
+    ta, tb = a.split(), b.split()
+    if ta[0] != 'N' or tb[0] != 'N': return 'no result: impl "%s" model "%s"' % (a[:80], b[:80])
+    if not close(fx(ta[1]), fx(tb[1]), rtol=1e-10, atol=1e-300): return 'calcErrorNorm: impl %s model %s' % (ta[1], tb[1])
+    return None
+
+def norm_predicate(case, a):
+    """the theorems about calcErrorNorm on the implementation's own answer: the infinity norm is the maximum over ALL weighted
+    components of q, u, z (weights: 1 for q through N Wu pinv(N), calcRelativeScaling of the start state for u and z) and the
+    reported worst component attains it; the RMS norm is the largest block RMS.  Returns (key, description) or None."""
+    tk = case.split(); useInf, n2, nz = int(tk[1]), int(tk[2]), int(tk[3])
+    s = secs(case); y0 = [fx(x) for x in s[2]]; ye = [fx(x) for x in s[3]]
+    ta = a.split()
+    if ta[0] != 'N': return None
+    norm, worst = fx(ta[1]), int(ta[2])
+    sc = lambda v: (1.0 / abs(v)) if abs(v) > 1.0 else 1.0
+    w = [1.0] * n2 + [sc(v) for v in y0[n2:]]
+    comp = [abs(wi * e) for wi, e in zip(w, ye)]
+    name = lambda i: ('q%d' % i) if i < n2 else ('u%d' % (i - n2)) if i < 2 * n2 else ('z%d' % (i - 2 * n2))
+    if useInf:
+        for i, c in enumerate(comp):
+            if c > norm * (1 + 1e-9) + 1e-300:
+                return ('err_norm_inf_ge_every_component', 'infinity norm %s is below the weighted error component |w*e| = %s of %s (setUseInfinityNorm(true), n2=%d nz=%d)' % (hx(norm), hx(c), name(i), n2, nz))
+        if comp and not close(norm, max(comp), rtol=1e-9, atol=1e-300):
+            return ('err_norm_inf_is_max', 'infinity norm %s is not the largest weighted component %s' % (hx(norm), hx(max(comp))))
+        if comp and 0 <= worst < len(comp) and not close(comp[worst], norm, rtol=1e-9, atol=1e-300):
+            return ('err_norm_inf_is_max', 'reported worst component %s has |w*e| = %s, the norm is %s' % (name(worst), hx(comp[worst]), hx(norm)))
+    else:
+        rms = lambda l: math.sqrt(sum(x * x for x in l) / len(l)) if l else 0.0
+        b = [rms(comp[:n2]), rms(comp[n2:2 * n2]), rms(comp[2 * n2:])]
+        if not close(norm, max(b), rtol=1e-9, atol=1e-300):
+            return ('err_norm_rms_is_max_of_blocks', 'RMS norm %s is not the largest block RMS of (q,u,z) = %s' % (hx(norm), [hx(x) for x in b]))
+    return None
+
 def take_is_fragile(ctx, drv, exe, case_line):
     """a TAKE case is discontinuous in its data at the branch boundaries of adjustStepSize / t1 selection.  A case counts
     as fragile (not compared) when the MODEL's own outcome changes under a 1e-9 relative perturbation of the accuracy."""
@@ -206,8 +267,8 @@ def correspondence(ctx, tools, cases):
         ctx.broken.append(('correspondence:harness-run', 'C20_step produced %d lines for %d cases (rc %d) %s' % (len(out_i), len(lines), rc_i, err_i[-300:]))); return None
     if rc_m != 0 or len(out_m) != len(lines):
         ctx.broken.append(('correspondence:model-run', 'model driver produced %d lines for %d cases (rc %d) %s' % (len(out_m), len(lines), rc_m, err_m[-300:]))); return None
-    cmpf = {'STEP': compare_step, 'TAKE': compare_take, 'ADJ': compare_adj, 'HERM': compare_herm}
-    stats = {'compared': 0, 'per_kind': {k: 0 for k in KINDS}, 'per_cmd': {}, 'fragile_skipped': 0, 'paths': set(), 'exceptions': 0}
+    cmpf = {'STEP': compare_step, 'TAKE': compare_take, 'ADJ': compare_adj, 'HERM': compare_herm, 'STEPI': compare_step, 'TAKEI': compare_take, 'NORM': compare_norm}
+    stats = {'compared': 0, 'per_kind': {k: 0 for k in KINDS}, 'per_cmd': {}, 'fragile_skipped': 0, 'paths': set(), 'exceptions': 0, 'norm_fails': [], 'norm_pred': 0}
     dis = []
     for (cmd, kind, line), a, b in zip(cases, out_i, out_m):
         if a.startswith('EXC'):
@@ -215,12 +276,16 @@ def correspondence(ctx, tools, cases):
             if not b.startswith('T none'): dis.append((cmd, kind, line, 'implementation threw: ' + a[:200] + ' ; model: ' + b[:80]))
             continue
         mm = cmpf[cmd](line, a, b)
-        if mm and cmd == 'TAKE' and take_is_fragile(ctx, drv, exe, line):
+        if cmd == 'NORM':
+            stats['norm_pred'] += 1; nf = norm_predicate(line, a)
+            if nf: stats['norm_fails'].append((nf[0], nf[1], line))
+            stats['paths'].add('norm inf=%s dominated by %s' % (line.split()[1], a.split()[2] if len(a.split()) > 2 else '?'))
+        if mm and cmd in ('TAKE', 'TAKEI') and take_is_fragile(ctx, drv, exe, line):
             stats['fragile_skipped'] += 1; continue
         stats['compared'] += 1; stats['per_cmd'][cmd] = stats['per_cmd'].get(cmd, 0) + 1
         if kind >= 0: stats['per_kind'][KINDS[kind]] += 1
-        if cmd == 'STEP': stats['paths'].add('%s conv=%s nit=%s' % (KINDS[kind], a.split()[1], a.split()[3]))
-        if cmd == 'TAKE': stats['paths'].add('%s take rejected=%s status=%s' % (KINDS[kind], a.split()[5], a.split()[1]))
+        if cmd in ('STEP', 'STEPI'): stats['paths'].add(cmd + ' ' + '%s conv=%s nit=%s' % (KINDS[kind], a.split()[1], a.split()[3]))
+        if cmd in ('TAKE', 'TAKEI'): stats['paths'].add(cmd + ' ' + '%s take rejected=%s status=%s' % (KINDS[kind], a.split()[5], a.split()[1]))
         if cmd == 'ADJ':
             t = a.split()
             for i in range(3, len(t), 2): stats['paths'].add('adjust ok=%s' % t[i])
@@ -326,7 +391,7 @@ def corpus_cases():
             for l in open(os.path.join(d, f)):
                 l = l.strip()
                 if l and not l.startswith('#'):
-                    tk = l.split(); out.append((tk[0], int(tk[1]) if tk[0] in ('STEP', 'TAKE') else -1, l))
+                    tk = l.split(); out.append((tk[0], int(tk[1]) if tk[0] in ('STEP', 'TAKE', 'STEPI', 'TAKEI') else -1, l))
     return out
 
 def replay(ctx, path):
@@ -360,7 +425,7 @@ def run(ctx):
         stats, dis = res
         ctx.add_cases(stats['compared'], len(stats['paths']), [c[2][:160] for c in cases[:3]])
         ctx.cov['rule'] = ('one evaluation = one case run on the real integrator and on the extracted model and compared (STEP: attemptDAEStep once; '
-                           'TAKE: one internal step through initialize/stepTo; ADJ: six adjustStepSize calls; HERM: interpolateOrder3); end state, error estimate, '
+                           'TAKE: one internal step through initialize/stepTo; STEPI/TAKEI: the same under setUseInfinityNorm(true) on systems with q, u and z states; NORM: calcErrorNorm called directly for both norms; ADJ: six adjustStepSize calls; HERM: interpolateOrder3); end state, error estimate, '
                            'error norm compared with rtol 1e-10 / atol 1e-12*max(1,|y0|), discrete outputs (converged, errOrder, iterations, rejected attempts, success) exactly; '
                            'distinct_nontrivial = distinct (integrator, converged, iterations) / (integrator, rejected attempts, status) / adjust verdict combinations reached; '
                            'TAKE cases whose model outcome flips under a 1e-9 relative change of the accuracy are not compared (fragile_skipped)')
@@ -370,6 +435,12 @@ def run(ctx):
         ctx.extra['implementation_exceptions'] = stats['exceptions']
         ctx.extra['paths_reached'] = sorted(stats['paths'])
         ctx.extra['disagreements'] = len(dis)
+        ctx.extra['error_norm_predicate_evaluations'] = stats['norm_pred']
+        ctx.add_cases(stats['norm_pred'])
+        seen_n = set()
+        for key, desc, line in stats['norm_fails']:
+            if key in seen_n: continue
+            seen_n.add(key); ctx.report('impl:' + key, 'calcErrorNorm violates %s: %s' % (key, desc), {'case': line})
         for cmd, kind, line, mm in dis[:1]:
             ctx.broken.append(('correspondence:%s%s' % (cmd, (':' + KINDS[kind]) if kind >= 0 else ''), mm + ' ; case: ' + line[:300]))
             ctx.extra['first_disagreement_case'] = line
